@@ -321,27 +321,43 @@ func (s *Server) shrinklogRename(d *commandDetails) {
 	}
 	now := time.Now().UnixNano()
 	col.Scan(false, nil, nil, func(o *object.Object) bool {
-		values := []string{"set", d.newKey, o.ID()}
-		o.Fields().Scan(func(f field.Field) bool {
-			if !f.Value().IsZero() {
-				values = append(values, "field", f.Name(), f.Value().JSON())
-			}
-			return true
-		})
-		if o.Expires() != 0 {
-			ttl := math.Floor(float64(o.Expires()-now)/float64(time.Second)*10) / 10
-			if ttl < 0.1 {
-				// always leave a little bit of ttl.
-				ttl = 0.1
-			}
-			values = append(values, "ex", strconv.FormatFloat(ttl, 'f', -1, 64))
-		}
-		if objIsSpatial(o.Geo()) {
-			values = append(values, "object", string(o.Geo().AppendJSON(nil)))
-		} else {
-			values = append(values, "string", o.Geo().String())
-		}
-		s.shrinklog = append(s.shrinklog, values)
+		s.shrinklog = append(s.shrinklog, shrinkSetValues(d.newKey, o, now))
 		return true
 	})
+}
+
+// shrinklogObject records the object a command left behind instead of the
+// command itself. JSET and JDEL need that while the aof is being rewritten:
+// removing an array element or appending to an array gives a different result
+// when it is replayed on top of a snapshot that already contains its effect
+// (the scan had not reached the object when the command was applied).
+func (s *Server) shrinklogObject(d *commandDetails) {
+	s.shrinklog = append(s.shrinklog,
+		shrinkSetValues(d.key, d.obj, time.Now().UnixNano()))
+}
+
+// shrinkSetValues returns the SET command that stores o under key, in the form
+// the rewrite itself uses.
+func shrinkSetValues(key string, o *object.Object, now int64) []string {
+	values := []string{"set", key, o.ID()}
+	o.Fields().Scan(func(f field.Field) bool {
+		if !f.Value().IsZero() {
+			values = append(values, "field", f.Name(), f.Value().JSON())
+		}
+		return true
+	})
+	if o.Expires() != 0 {
+		ttl := math.Floor(float64(o.Expires()-now)/float64(time.Second)*10) / 10
+		if ttl < 0.1 {
+			// always leave a little bit of ttl.
+			ttl = 0.1
+		}
+		values = append(values, "ex", strconv.FormatFloat(ttl, 'f', -1, 64))
+	}
+	if objIsSpatial(o.Geo()) {
+		values = append(values, "object", string(o.Geo().AppendJSON(nil)))
+	} else {
+		values = append(values, "string", o.Geo().String())
+	}
+	return values
 }
